@@ -42,4 +42,9 @@ def replay(ctx, data):
     inp = data["input"]
     case = inp.get("case", inp)
     rep = ctx.harness("c14", ["replay", json.dumps(case)])
-    return 1 if rep and (rep.get("impl_violations") or rep.get("model_mismatches")) else 0
+    if rep is None:
+        # the replayed program killed the process (e.g. a constant reading the
+        # context at compile time): that is the failure
+        print("replay: the harness process died on this input")
+        return 1
+    return 1 if (rep.get("impl_violations") or rep.get("model_mismatches")) else 0
